@@ -320,4 +320,31 @@ def Limiter.noEvictR (l : Limiter) : List ReqR → Prop
   | [] => True
   | r :: rs => l.evictsAt r.t r.src = false ∧ Limiter.noEvictR (l.serve r.t r.src r.amount r.rates r.victim).1 rs
 
+/-! ### the limiter with the TTL map's expiry heap (deterministic eviction) -/
+
+/-- `TokenLimiter` whose `bucketSets` is the map *with* its heap: the eviction victim is the heap top -/
+structure HLimiter where
+  base : Limiter
+  heap : Heap.T
+
+def HLimiter.new (defaults : List Rate) (capacity : Nat) : HLimiter := ⟨Limiter.new defaults capacity, []⟩
+
+def HLimiter.hmap (hl : HLimiter) : TTL.HMap BucketSet := ⟨hl.base.sets, hl.heap⟩
+
+/-- the entry the heap hands out if this request has to make room -/
+def HLimiter.victimAt (hl : HLimiter) (now : Nat) (src : String) : String := (hl.hmap.get src now).1.victim
+
+/-- `consumeRates` on the map-with-heap: `Limiter.serve` with the heap's victim, the heap updated alongside -/
+def HLimiter.serve (hl : HLimiter) (now : Nat) (src : String) (amount : Nat) (reqRates : List Rate) : HLimiter × Resp :=
+  (⟨(hl.base.serve now src amount reqRates (hl.victimAt now src)).1,
+    ((hl.hmap.get src now).1.set src
+      ((hl.base.current now src (hl.base.resolve reqRates)).consume now amount).1
+      (ttlOf (hl.base.current now src (hl.base.resolve reqRates))) now).heap⟩,
+   (hl.base.serve now src amount reqRates (hl.victimAt now src)).2)
+
+/-- state after a history of `(time, source, amount, rates)` requests -/
+def HLimiter.after (hl : HLimiter) : List (Nat × String × Nat × List Rate) → HLimiter
+  | [] => hl
+  | (t, s, n, rr) :: rs => HLimiter.after (hl.serve t s n rr).1 rs
+
 end RL
